@@ -150,6 +150,16 @@ class DatumGen:
         if k == "array":
             n = self._size(depth)
             items = [self.gen(node.items, depth + 1) for _ in range(n)]
+            if self.o["no_tuples"] and in_union and r.random() < 0.35:
+                # tuple notation switched off: any tuple is a plain sequence, also a pair whose
+                # first item spells a branch name
+                self.features.add("tuple_sequence_under_union")
+                names = getattr(self, "_union_names", None)
+                if deref(node.items).kind == "string" and names and r.random() < 0.6:
+                    return (r.choice(names), r.choice(["b", "", "x"]))
+                if len(items) != 2 and r.random() < 0.5:
+                    items = [self.gen(node.items, depth + 1) for _ in range(2)]
+                return tuple(items)
             if r.random() < self.o["mappings"] and not in_union:
                 # directly under a union a tuple is a (name, value) hint (A2)
                 self.features.add("tuple_sequence")
@@ -219,6 +229,7 @@ class DatumGen:
         else:
             i = r.randrange(len(branches))
         b = branches[i]
+        self._union_names = [hint_name(x) for x in branches]
         v = self.gen(b, depth + 1, in_union=True)
         self.features.add("branch_pos%d" % i)
         if self.o["hints"] and r.random() < self.o["hints"]:
